@@ -615,6 +615,20 @@ where
                 ev.y = y;
                 self.tab(t).extend(items);
             }
+            "from_iter" => {
+                // FromIterator: the collection is replaced by `items.into_iter().collect()` (Default hasher = plan 0)
+                let mut items = Vec::new();
+                let mut y = Vec::new();
+                for p in ev.ks.chunks(2) {
+                    let key = K::make(p[0] as u32);
+                    let val = V::make(p[1] as u32);
+                    y.push(kv4(&key, &val));
+                    items.push((key, val));
+                }
+                ev.y = y;
+                let m: HashMap<K, V, PlanBH, CheckingAlloc> = items.into_iter().collect();
+                drop(self.tabs[t - 1].replace(m));
+            }
             "clear" => self.tab(t).clear(),
             "reserve" => self.tab(t).reserve(ev.n as usize),
             "try_reserve" => {
@@ -696,6 +710,12 @@ where
                     }
                     if ev.n == 1 {
                         std::mem::forget(it);
+                    } else if ev.n == 2 {
+                        // the rest is consumed by internal iteration (the specialised fold of the wrapper)
+                        it.fold((), |_, (ok, ov)| {
+                            y.push(kv4(&ok, &ov));
+                            kept.push((ok, ov));
+                        });
                     }
                 }
                 ev.y = y;
